@@ -247,3 +247,70 @@ Proof.
   destruct ex_aut_count_thm as (s & Hs & E). exists s. split; auto.
   apply is_aut_is_autA; auto. repeat constructor; discriminate.
 Qed.
+
+(** C18_max_depth_*: the example needs one individualisation: max_depth = 0 stops early before any leaf (the code raises), with
+    max_depth = 1 the answer is complete and the flag says so; 5 nodes: any bound >= 5 is enough by the theorem *)
+From SK Require Import model.C18_DepthModel proof.C18_Depth.
+Example ex_max_depth : canon_search_md g1 (Some 0) = ((None, []), true) /\
+  canon_search_md g1 (Some 1) = (canon_search g1, false) /\ length (vnodes g1) <= 5 /\ fst (canon_search g1) <> None.
+Proof. vm_compute. repeat split; auto; discriminate. Qed.
+
+(** C18_intids_*: the example network under integer_ids: species 1,2,3, reactions 4,5 -- a different view, same canonical graph *)
+From SK Require Import model.C18_IntIdsModel proof.C18_IntIds.
+Example ex_intids : net_ok true n1 /\ coeffs_ok n1 /\
+  intids_net n1 = Net [1;2;3]%N [Rxn 4%N [(1%N, 1%Z)] [(3%N, 1%Z)]; Rxn 5%N [(2%N, 1%Z)] [(3%N, 1%Z)]] /\
+  view true true (intids_net n1) <> view true true n1.
+Proof. split; [exact (proj1 ex_net_ok)|]. split; [exact (proj1 ex_view_wf)|]. vm_compute. split; [reflexivity|discriminate]. Qed.
+
+(** C18_vf2_uf_*: the structure-following union-find on the two self-maps of the example: parent links after the run, buckets in
+    node order {A,B}, {C}, {r_1,r_2}; the bookkeeping of summary(max_count=1) on 2 mappings: stopped early after one *)
+From SK Require Import model.C18_UFModel proof.C18_UF.
+Example ex_uf : orbits_from_mappings (node_ids g1) (auts g1) = [[0;1];[2];[3;4]]%N /\
+  orbits_from_mappings (node_ids g1) (rev (auts g1)) = [[0;1];[2];[3;4]]%N /\
+  vf2_bookkeeping 2 1 = (1, true, 1, 1) /\ vf2_bookkeeping 2 100 = (2, false, 2, 2) /\ vf2_bookkeeping 2 (-1) = (1, true, 0, 1).
+Proof. vm_compute. auto. Qed.
+
+(** C18_vf2_attr_*: under the selection (label) the two species A and B of the example are told apart: only the identity is left;
+    under the empty selection species and reactions are still separated by the arc attributes: 2 self-maps as with (kind) *)
+From SK Require Import model.C18_AutAttrModel proof.C18_AutAttr.
+Example ex_auts_attr : length (autsA g1 lt1 [NLabel]) = 1 /\ length (autsA g1 lt1 []) = 2 /\ length (autsA g1 lt1 [NKind; NBip]) = 2 /\
+  orbits_from_mappings (node_ids g1) (autsA g1 lt1 [NLabel]) = [[0];[1];[2];[3];[4]]%N.
+Proof. vm_compute. auto. Qed.
+
+(** C18_spattr_*: 2A >> 3B, 3A + C >> 2B, 4A >> 4B + 2C (ids A=0 B=1 C=2): the arc (A, B) of the species view aggregates three
+    contributions to (min 2 3 4, min 3 2 4) = (2, 2); the selection (kind; stoich_r, stoich_p) finds a leaf *)
+From SK Require Import model.C18_SpAttrModel proof.C18_SpAttr.
+Definition n_agg : net := Net [0;1;2]%N [Rxn 3%N [(0%N, 2%Z)] [(1%N, 3%Z)]; Rxn 4%N [(0%N, 3%Z); (2%N, 1%Z)] [(1%N, 2%Z)];
+                                          Rxn 5%N [(0%N, 4%Z)] [(1%N, 4%Z); (2%N, 2%Z)]].
+Example ex_spattr : find_arc (view_spS n_agg) 0%N 1%N = Some (2%Z, 2%Z) /\ net_closed n_agg /\
+  fst (canon_searchS (view_spS n_agg) [] [NKind] [SR; SP]) <> None /\ node_ids (view_spS n_agg) <> [].
+Proof.
+  split; [vm_compute; reflexivity|]. split; [apply closed_n; vm_compute; reflexivity|]. split; vm_compute; discriminate.
+Qed.
+
+(** max_depth can also stop early AFTER leaves were found, and then the answer may be incomplete: A >> C, C >> A, B >> B in the
+    species view (ids A=0 B=1 C=2; a 2-cycle and a loop look alike to the refinement).  Branches A (leaf), B (deeper: stop); the
+    branch C with the second minimal leaf is never visited: early_stop = true with 1 leaf, the exact answer has 2 *)
+Definition n_loop : net := Net [0;1;2]%N [Rxn 3%N [(0%N, 1%Z)] [(2%N, 1%Z)]; Rxn 4%N [(2%N, 1%Z)] [(0%N, 1%Z)]; Rxn 5%N [(1%N, 1%Z)] [(1%N, 1%Z)]].
+Example ex_max_depth_truncated :
+  snd (canon_search_md (view false true n_loop) (Some 1)) = true /\
+  length (snd (fst (canon_search_md (view false true n_loop) (Some 1)))) = 1 /\
+  length (snd (canon_search (view false true n_loop))) = 2.
+Proof. vm_compute. auto. Qed.
+
+(** C18_wl_coarser_than_orbits: premises hold for the example (see ex_canon_iso, kinds_g1, arcs_g1); its orbit sets {r_1,r_2},
+    {A,B}, {C} coincide with the WL cells (ex_wl) *)
+Example ex_wl_coarser : wf g1 /\ kinds_ok g1 /\ arcs_ok g1 /\ fst (canon_search g1) = Some (lab1, p1) /\
+  In [1;0]%N (orbits_from_perms (min_leaves g1)).
+Proof. split; [exact wf_g1|]. split; [exact kinds_g1|]. split; [exact arcs_g1|]. split; [exact best1|]. rewrite ex_canon_orbits. simpl. auto. Qed.
+
+(** Observation on the known finding C18:view-id-collision: under integer_ids=True species and reactions are numbered separately,
+    so the colliding network nc' (species label = reaction id) keeps its three nodes, and its numbered view is the numbered view
+    of the collision-free nc up to the naming (canonical graphs geq) *)
+Definition cs_nc := canon_search (view true true (intids_net nc)).
+Definition cs_nc' := canon_search (view true true (intids_net nc')).
+Definition p_nc := match fst cs_nc with Some lp => snd lp | None => [] end.
+Definition p_nc' := match fst cs_nc' with Some lp => snd lp | None => [] end.
+Example ex_intids_no_collision : length (vnodes (view true true nc')) = 2 /\ length (vnodes (view true true (intids_net nc'))) = 3 /\
+  geqb (canon_graph (view true true (intids_net nc')) p_nc') (canon_graph (view true true (intids_net nc)) p_nc) = true.
+Proof. vm_compute. auto. Qed.
